@@ -121,19 +121,29 @@ def l1_l2(ctx, F):
                     and "Mut" not in n2["pat"].get("mode", "").replace("Not)", ""):
                 start = sym(n2["init"])
     st_txt = hir.fmt(start, 400)
-    want = ("<T>::unwrap_or(<T>::map(<K, V, S, A>::get(table, Game::hash(game)), |entry| if (entry.flag == NodeType::Exact) {entry.depth} else {1}), 1)")
-    alt_ok = False
-    vals = set()
-    for x in hir.subterms(start):
-        if len(x) == 4 and x[0] == "if":
-            for br in (x[2], x[3]):
-                vals.add(hir.fmt(br, 40))
-    alt_ok = st_txt.startswith("<T>::unwrap_or(") and st_txt.endswith(", 1)") and vals == {"entry.depth", "1"} and \
-        "get(table, Game::hash(game))" in st_txt and "NodeType::Exact" in st_txt
-    ctx.check("C08.L1", "iteration-starts-at-1-or-at-the-cached-exact-depth", st_txt == want or alt_ok, fn=DRIVER, file=fn["file"], line=hir.line(node),
+    # every value the expression can take, with the conditions on the way (if / match guards / Option combinators)
+    leaves = hir.nf_leaves(start)
+    lookup = ("call", "std::collections::HashMap::<K, V, S, A>::get", (("var", "table"), ("call", "chess::Game::hash", (("var", "game"),))))
+    bad_leaves = []
+    n_depth = 0
+    for lf, conds in leaves:
+        if lf == ("lit", 1) or lf == lookup or (lf[0] == "variant" and str(lf[1]).endswith("::None")):
+            continue
+        if lf[0] == "field" and lf[2] == "depth" and lf[1][0] == "var":
+            x = lf[1]
+            exact = hir.canon(("bin", "==", ("field", x, "flag"), ("variant", "search::NodeType::Exact")))
+            if any(pol is True and isinstance(c, tuple) and hir.canon(c) == exact for c, pol in conds):
+                n_depth += 1
+                continue
+            if any(pol is True and isinstance(c, tuple) and any(hir.canon(y) == exact for y in hir.conj(c)) for c, pol in conds):
+                n_depth += 1
+                continue
+        bad_leaves.append(hir.fmt(lf, 60))
+    alt_ok = not bad_leaves and hir.contains(start, lookup) and any(lf == ("lit", 1) for lf, _ in leaves)
+    ctx.check("C08.L1", "iteration-starts-at-1-or-at-the-cached-exact-depth", alt_ok, fn=DRIVER, file=fn["file"], line=hir.line(node),
               what="the first iteration must be depth 1 or the depth of the cached exact root entry (answered from the table for free, then "
                    "the limit test fires); starting above it makes `go depth N` with N below the cached depth run a real search deeper than N",
-              expected="1 | entry.depth of the exact root entry", found=st_txt)
+              expected="1 | entry.depth of the exact root entry", found={"expression": st_txt, "other values": bad_leaves})
     return U
 
 
